@@ -132,6 +132,7 @@ def check(ctx):
     ctx.rule('C15.P2', 'destructor resets; reset detaches every recorded listener before clearing')
     ctx.rule('C15.P3', 'add functions record the returned handle under the mutex; remove erases the record first')
     ctx.rule('C15.P4', 'move construction transfers both fields and empties the source; swap exchanges both')
+    ctx.rule('C15.P5', 'append/prepend/insert of the target list return a handle to the node they linked (every list shape up to length 3)')
     for tu in ctx.tus:
         info = TUInfo(tu)
         for f in tu.fns:
@@ -140,6 +141,11 @@ def check(ctx):
             if f.cls != 'ScopedRemover':
                 continue
             check_fn(ctx, tu, info, f)
+        # the remover can detach only what the recorded handle denotes: the target's add operations have to hand back a handle to
+        # the node they linked (an empty or foreign handle makes the listener unremovable, so it outlives every remover)
+        from .c01 import check_shape
+        check_shape(ctx, tu, 3, rule='C15.P5', only_laws=('handle',))
+    ctx.require_min('C15.P5', 3)
     ctx.require_min('C15.P1', 3)
     ctx.require_min('C15.P2', 2)
     ctx.require_min('C15.P3', 8)
@@ -333,6 +339,15 @@ def check_remove(ctx, tu, info, f):
         er = [n for n in g.calls() if (g.callee(n) or {}).get('name') == 'erase']
         ok2 = len(er) == 1 and bool(si.node_held_must(er[0]))
         ctx.ob('C15.P3', g, 'the record is erased under the record mutex', ok2)
+        # the search and the erase form one critical section: every access to the record list parameter (begin/end for the search,
+        # the erase) happens with the mutex parameter held, otherwise the iterator found can be stale when it is erased and a
+        # concurrent remove erases somebody else's record (that listener then outlives the remover)
+        lp = g.params[0]['id'] if g.params else None
+        refs = [n for n, o in g.nodes.items() if o['cls'] == 'DeclRefExpr' and g.decl(n).get('id') == lp]
+        unl = [n for n in refs if not si.node_held_must(n)]
+        ctx.ob('C15.P3', g, 'every access to the record list (search and erase) is inside the critical section of the record mutex',
+               bool(refs) and not unl, detail='accessed without the mutex at %s' % ', '.join(g.nloc(n) for n in unl[:4]),
+               key_detail='record list locked')
         # the record searched for is the one whose handle denotes the same listener as the given handle
         for lam in tu.lambdas_of.get(g.id, []):
             try:
